@@ -39,7 +39,10 @@ st = "caught" if rc == "1" and int(nviol) > 0 else ("missed" if rc == "0" else "
 runs = m.setdefault("verif_runs", [])
 runs.append({"status": st, "exit": int(rc), "violation_lines": int(nviol), "first": first, "summary": summary,
              "cmd": "VERIF_REPO=<worktree with patch> ./check %s --tier quick" % prop})
-m["verif_result"] = dict(m.get("verif_result") or {}, status_latest=st)
+vr = m.get("verif_result")
+if not isinstance(vr, dict):
+    vr = {"first_report": vr} if vr else {}
+m["verif_result"] = dict(vr, status_latest=st)
 json.dump(m, open(p, "w"), indent=1)
 PY
 done
